@@ -328,7 +328,7 @@ def execute(spec: Dict[str, Any], ctx: Ctx) -> None:
                     f"C15.print:{form}",
                 )
         else:
-            printed[L] = (snap, form, copy.deepcopy(pr))
+            printed[L] = (snap, form, json.loads(core.jdump(pr)))  # a plain copy, whatever container types asdicts() uses
         rec = _P(p, snap, L, form, len(all_patches))
         patches[(L, form)] = rec
         all_patches.append(rec)
